@@ -1043,9 +1043,15 @@ func builtAutoPassthroughFilterChains(push *model.PushContext, proxy *model.Prox
 					statPrefix, clusterName, "", port, destinationRule, tunnelingconfig.Skip, false, nil),
 			})
 
-			// Do the same, but for each subset
+			// Do the same, but for each subset. A subset whose name is empty or repeated (only possible for
+			// a DestinationRule that skipped validation) would repeat an SNI match, and Envoy rejects a
+			// listener with two identical filter chain matches.
+			sniSeen := sets.New(clusterName)
 			for _, subset := range destinationRule.GetSubsets() {
 				subsetClusterName := model.BuildDNSSrvSubsetKey(model.TrafficDirectionOutbound, subset.Name, service.Hostname, port.Port)
+				if sniSeen.InsertContains(subsetClusterName) {
+					continue
+				}
 				subsetStatPrefix := subsetClusterName
 				// If stat name is configured, build the stat prefix from configured pattern.
 				if len(push.Mesh.OutboundClusterStatName) != 0 {
